@@ -187,7 +187,11 @@ def make_pool(workers: int = 16):
     BrokenProcessPool -> machinery failure, instead of hanging like multiprocessing.Pool."""
     import multiprocessing as mp
     from concurrent.futures import ProcessPoolExecutor
-    return ProcessPoolExecutor(max_workers=workers, mp_context=mp.get_context("fork"))
+    pool = ProcessPoolExecutor(max_workers=workers, mp_context=mp.get_context("fork"))
+    # fork the workers NOW (with the fork context all of them are started at the first submit): later the
+    # parent holds millions of emitted cases, and workers forked then would copy them page by page
+    pool.submit(int, 0).result()
+    return pool
 
 
 def _apply_chunk(args):
